@@ -87,13 +87,13 @@ func c11FireAll(sm schedulemanager.ScheduleManager, num func(string) int) (strin
 				case crontab := <-sm.Ch():
 					live = append(live, fmt.Sprintf("%d@%d", id, num(crontab)))
 					fired = append(fired, num(crontab))
-				case <-time.After(5 * time.Second):
+				case <-time.After(20 * time.Second):
 					live = append(live, fmt.Sprintf("%d@silent", id))
 				}
 			} else {
 				live = append(live, fmt.Sprintf("%d@gone", id))
 			}
-		case <-time.After(5 * time.Second):
+		case <-time.After(20 * time.Second):
 			live = append(live, fmt.Sprintf("%d@timeout", id))
 		}
 	}
